@@ -147,7 +147,12 @@ class World:
                 v = ir.Value(const_value=t)
                 # the name setter aligns the tensor's own name with the value's name (the usual
                 # situation); a tensor object shared by several values keeps the last one
-                v.name = f"init_{next(name_ctr)}_{ti}"
+                if case.get("dup_names"):
+                    # initializer names are unique per graph only: sibling / nested graphs reuse them
+                    v.name = f"w{len(vals)}"
+                    next(name_ctr)
+                else:
+                    v.name = f"init_{next(name_ctr)}_{ti}"
                 vals.append(v)
             values_per_graph.append(vals)
         parents = case.get("graph_parents") or [None] + [0] * (len(graphs_spec) - 1)
